@@ -3,6 +3,7 @@ import json
 import logging
 import os
 import pickle
+import threading
 
 from .sensor import ChildSensor, Sensor
 
@@ -15,6 +16,8 @@ class Persistence:
     def __init__(self, sensors, schedule_factory, persistence_file="mysensors.pickle"):
         """Set up Persistence instance."""
         self._sensors = sensors
+        # The scheduled save and the save at stop run in different threads.
+        self._save_lock = threading.Lock()
         self.need_save = True
         self.persistence_file = persistence_file
         self.persistence_bak = f"{self.persistence_file}.bak"
@@ -45,6 +48,11 @@ class Persistence:
             self._sensors.update(json.load(file_handle, cls=MySensorsJSONDecoder))
 
     def save_sensors(self):
+        """Save sensors to file, one thread at a time."""
+        with self._save_lock:
+            self._save_sensors()
+
+    def _save_sensors(self):
         """Save sensors to file."""
         if not self.need_save:
             return
